@@ -85,7 +85,14 @@ structure Snd where
   closed : Bool := false
   timerEnabled : Bool := false
   maxSentAck : Nat
-deriving Repr, Inhabited
+  /-- ghost counters (never read by the model): write-list segments removed by acknowledgements so far, and
+  duplicate acknowledgements counted by `checkDuplicateAck` so far — the credits of the C05 window bound -/
+  gAcked : Nat := 0
+  gDup : Nat := 0
+deriving Repr
+
+/-- the placeholder sender (used where a lookup has no endpoint): a fresh sender's congestion state -/
+instance : Inhabited Snd := ⟨{ sndUna := 0, sndNxt := 0, sndNxtList := 0, sndWnd := 0, maxPayload := 0, maxSentAck := 0 }⟩
 
 structure PSeg where
   seq : Nat
@@ -271,12 +278,12 @@ def checkDuplicateAck (s : Snd) (ack logicalLen window : Nat) : Snd × Bool :=
     else if lt s.fr.last ack then (leaveFastRecovery s, false)
     else if logicalLen != 0 || s.sndWnd != window then (s, false)
     else if ack == s.fr.first then
-      ((if s.cwnd < s.fr.maxCwnd then { s with cwnd := s.cwnd + 1 } else s), false)
+      ((if s.cwnd < s.fr.maxCwnd then { s with cwnd := s.cwnd + 1, gDup := s.gDup + 1 } else { s with gDup := s.gDup + 1 }), false)
     else ({ s with fr := { s.fr with first := ack }, dupAck := 0 }, true)
   else
     if ack != s.sndUna || logicalLen != 0 || s.sndWnd != window || ack == s.sndNxt then ({ s with dupAck := 0 }, false)
     else
-      let s := { s with dupAck := s.dupAck + 1 }
+      let s := { s with dupAck := s.dupAck + 1, gDup := s.gDup + 1 }
       if s.dupAck < 3 then (s, false)
       else if !lt s.fr.last ack then ({ s with dupAck := 0 }, false)
       else ({ (enterFastRecovery (reduceSsthresh s)) with dupAck := 0 }, true)
@@ -295,7 +302,7 @@ def ackLoop : Nat → Snd → Nat → Snd
         { s with writeList := { seg with data := seg.data.drop ackLeft, seq := addS seg.seq ackLeft } :: rest }
       else
         let wn := if s.writeNext == 0 then 0 else s.writeNext - 1
-        ackLoop fuel { s with writeList := rest, writeNext := wn, outstanding := s.outstanding - 1 } (ackLeft - datalen)
+        ackLoop fuel { s with writeList := rest, writeNext := wn, outstanding := s.outstanding - 1, gAcked := s.gAcked + 1 } (ackLeft - datalen)
 
 def updateRecentTimestamp (e : Ep) (tsVal maxSentAck segSeq : Nat) : Ep :=
   if e.sendTSOk && lt e.recentTS tsVal && le segSeq maxSentAck then { e with recentTS := tsVal } else e
